@@ -30,6 +30,47 @@ type circuitReplay struct {
 	K        int    `json:"k"`
 	Edits    []edit `json:"edits"`
 	Expect   string `json:"expect"`
+	// Lenient replaces the repository's hint functions by versions without their solver-side
+	// refusals of operands >= p (a prover may run any hint code; only constraints bind him).
+	Lenient bool `json:"lenient_hints,omitempty"`
+	// KeyEdits alter the verifier data BEFORE the circuit is built (template and assignment alike):
+	// a wrapper built for another key. Index 0..15 = constants/sigmas cap entry, 16 = circuit digest.
+	KeyEdits []keyEdit `json:"key_edits,omitempty"`
+}
+
+type keyEdit struct {
+	Index int    `json:"index"`
+	Add   string `json:"add"`
+}
+
+// lenientHintHooks: the repository's hint functions without their input guards.
+func lenientHintHooks() map[string]hookFn {
+	two32 := new(big.Int).Lsh(big.NewInt(1), 32)
+	return map[string]hookFn{
+		"goldilocks.MulAddHint": func(recv any, args []any) []any {
+			in, res := args[1].([]*big.Int), args[2].([]*big.Int)
+			sum := new(big.Int).Add(new(big.Int).Mul(in[0], in[1]), in[2])
+			res[0] = new(big.Int).Div(sum, P)
+			res[1] = new(big.Int).Rem(sum, P)
+			return []any{nil}
+		},
+		"goldilocks.SplitLimbsHint": func(recv any, args []any) []any {
+			in, res := args[1].([]*big.Int), args[2].([]*big.Int)
+			res[0] = new(big.Int).Quo(in[0], two32)
+			res[1] = new(big.Int).Rem(in[0], two32)
+			return []any{nil}
+		},
+		"goldilocks.InverseHint": func(recv any, args []any) []any {
+			in, res := args[1].([]*big.Int), args[2].([]*big.Int)
+			x := new(big.Int).Mod(in[0], P)
+			if x.Sign() == 0 {
+				res[0] = new(big.Int)
+			} else {
+				res[0] = new(big.Int).ModInverse(x, P)
+			}
+			return []any{nil}
+		},
+	}
 }
 
 var pathRe = regexp.MustCompile(`\.([A-Za-z_0-9]+)|\[(\d+)\]`)
@@ -97,6 +138,22 @@ func runCircuitReplay(c *circuitReplay, repo string) (accepted bool, msg string)
 			os.Unsetenv("USE_BIT_DECOMPOSITION_RANGE_CHECK")
 		}
 	}()
+	if len(c.KeyEdits) > 0 {
+		cp := *in
+		cp.VD = cloneValue(in.VD)
+		for _, ke := range c.KeyEdits {
+			d, _ := new(big.Int).SetString(ke.Add, 10)
+			if d == nil {
+				return false, "bad key edit"
+			}
+			if ke.Index >= 0 && ke.Index < len(cp.VD.ConstantSigmasCap) {
+				cp.VD.ConstantSigmasCap[ke.Index] = new(big.Int).Add(toBig(cp.VD.ConstantSigmasCap[ke.Index]), d)
+			} else {
+				cp.VD.CircuitDigest = new(big.Int).Add(toBig(cp.VD.CircuitDigest), d)
+			}
+		}
+		in = &cp
+	}
 	var circuit, witness frontend.Circuit
 	packed := func() [4]frontend.Variable {
 		var out [4]frontend.Variable
@@ -139,6 +196,10 @@ func runCircuitReplay(c *circuitReplay, repo string) (accepted bool, msg string)
 		v.Set(reflect.ValueOf(cur))
 	}
 	var err error
+	if c.Lenient {
+		setHooks(lenientHintHooks())
+		defer clearHooks()
+	}
 	pm := catchPanic(func() { quiet(func() { err = test.IsSolved(circuit, witness, R) }) })
 	if pm != "" {
 		return false, "panic: " + short(pm, 200)
